@@ -120,6 +120,18 @@ impl TilemapData {
         Some(&self.tiles[index])
     }
 
+    /// Check that every tile refers to one of the `tile_count` tiles of the
+    /// tileset this tilemap is rendered with.
+    pub(crate) fn validate_tile_ids(&self, tile_count: u32) -> Result<()> {
+        match self.tiles.iter().find(|tile| tile.id.0 >= tile_count) {
+            Some(tile) => Err(AsepriteParseError::InvalidInput(format!(
+                "Tilemap references tile {} but the tileset has only {} tiles",
+                tile.id.0, tile_count
+            ))),
+            None => Ok(()),
+        }
+    }
+
     pub(crate) fn parse_chunk<R: Read>(mut reader: AseReader<R>) -> Result<Self> {
         let width = reader.word()?;
         let height = reader.word()?;
